@@ -280,6 +280,18 @@ def l_r3_datetime(p: Project, rep: Report):
                 first = text(fvs[0].value) if fvs else ""
                 ok = spec.lstrip("f").strip("'\"") in ("03d", "03", "0>3d", "0>3", "0=3d", "0=3") and f".strftime({fparams[0]})" in first
                 why = f"milliseconds format {spec!r}, date part {first[:50]}"
+                # three digits need a value of at most 999: the floor of microseconds / 1000 is, a ROUNDED quotient is not
+                # (999500..999999 microseconds round to 1000 - a four-digit fraction the notation does not have)
+                if ok and len(fvs) > 1:
+                    msx = fvs[1].value
+                    while isinstance(msx, ast.Call) and text(msx.func) in ("int", "abs") and len(msx.args) == 1:
+                        msx = msx.args[0]
+                    floor_ms = isinstance(msx, ast.BinOp) and isinstance(msx.op, ast.FloorDiv) and text(msx.right) == "1000" and ".microsecond" in text(msx.left)
+                    rounded = any(isinstance(c_, ast.Call) and text(c_.func) in ("round", "math.ceil", "ceil") for c_ in ast.walk(msx)) or (isinstance(msx, ast.BinOp) and isinstance(msx.op, ast.Div))
+                    if rounded and not floor_ms:
+                        rep.check("L-R3", f"format_datetime:return#{k}:milliseconds-at-most-999", False, f"on this path the milliseconds are {text(msx)[:60]}: a rounded quotient reaches 1000 for the last half millisecond of a second, written as a FOUR-digit fraction (…59.1000) that the notation does not have and the reader refuses", tloc(p, fd0))
+                    elif floor_ms:
+                        rep.check("L-R3", f"format_datetime:return#{k}:milliseconds-at-most-999", True, "", tloc(p, fd0))
         if ok is None:
             rep.note(f"L-R3 undecided: format_datetime returns {rtxt[:80]}")
         else:
